@@ -9,6 +9,7 @@ mod c06_dwarf;
 mod leg_c06;
 mod leg_c07;
 mod leg_c07_eval;
+mod leg_c08_dap;
 mod leg_c09;
 mod leg_c10;
 mod dap;
@@ -56,6 +57,7 @@ fn main() {
         "c19-e2e" => leg_c19::run(rest),
         "c10-e2e" => leg_c10::run(rest),
         "c10-acct" => leg_c10::run_acct(rest),
+        "c08-dap" => leg_c08_dap::run(rest),
         "c09-e2e" => leg_c09::run(rest),
         "c09-e2e-worker" => leg_c09::run_worker(rest),
         "c09-repro" => leg_c09::run_repro(rest),
